@@ -194,6 +194,12 @@ type c07Htlc struct {
 	// channel) the accepted response carries, nil for responses that are
 	// in no forwarding package (local failures, contract resolutions).
 	wantDest *channeldb.SettleFailRef
+
+	// dupClosing: a duplicate of the accepted response arrived while the
+	// first copy was still un-committed by the incoming link (circuit only
+	// "closing"); dupTick: the switch's ack ticker fired after that.
+	dupClosing bool
+	dupTick    bool
 }
 
 // c07FwdEntry is one settle/fail in a forwarding package of an outgoing
@@ -204,6 +210,13 @@ type c07FwdEntry struct {
 	ref    channeldb.SettleFailRef
 	settle bool
 	acked  bool
+
+	// queued: the switch legitimately queued the ack of this entry in
+	// memory (a copy of the response arrived when its circuit no longer
+	// existed, i.e. the incoming link had committed and acked it, or the
+	// payment was completed); the next tick of the AckEventTicker
+	// persists it, a switch restart forgets it.
+	queued bool
 }
 
 type c07LinkState struct {
@@ -255,9 +268,29 @@ type c07World struct {
 	fwdByOut  map[CircuitKey]*c07FwdEntry
 	fwdByRef  map[channeldb.SettleFailRef]*c07FwdEntry
 	resMsgs   map[CircuitKey]bool
+	ackTicker *ticker.Force
 }
 
 func (w *c07World) up(c int) bool { return !w.lc || w.live[c] }
+
+// newAckTicker: in life-cycle mode the ack ticker only fires when the harness
+// forces it (action ackTick); its own interval is out of reach.
+func (w *c07World) newAckTicker() ticker.Ticker {
+	if !w.lc {
+		return ticker.NewForce(DefaultAckInterval)
+	}
+	w.ackTicker = ticker.NewForce(24 * time.Hour)
+
+	return w.ackTicker
+}
+
+// queueAck: a response copy that finds no circuit makes the switch queue the
+// ack of its forwarding-package entry.
+func (w *c07World) queueAck(fe *c07FwdEntry) {
+	if fe != nil && !fe.acked {
+		fe.queued = true
+	}
+}
 
 func (w *c07World) label(l string) { w.labels[l] = true }
 
@@ -332,7 +365,7 @@ func (w *c07World) startSwitch() error {
 		},
 		FwdEventTicker:         ticker.NewForce(DefaultFwdEventInterval),
 		LogEventTicker:         ticker.NewForce(DefaultLogInterval),
-		AckEventTicker:         ticker.NewForce(DefaultAckInterval),
+		AckEventTicker:         w.newAckTicker(),
 		HtlcNotifier:           w.ntf,
 		Clock:                  clock.NewDefaultClock(),
 		MailboxDeliveryTimeout: time.Hour,
@@ -1312,8 +1345,16 @@ func (w *c07World) actRespond(t *rapid.T) error {
 					v = "after_resolved"
 				}
 			}
+			w.queueAck(fe)
 		case h.closed:
 			v = "dup_closing"
+			// Dropped; the ack of the package entry must NOT be
+			// queued: the incoming link has not committed the
+			// first copy yet.
+			if fe != nil && !h.resolved {
+				h.dupClosing = true
+				w.label("lc:dup_resp_while_uncommitted")
+			}
 		case h.in.ChanID.ToUint64() == 0:
 			v = "first_local"
 			w.resolveLocal(h, exp)
@@ -1457,6 +1498,7 @@ func (w *c07World) actInCommit(t *rapid.T) error {
 		if fe := w.fwdByOut[out]; w.lc && fe != nil {
 			ref := fe.ref
 			pkt.destRef = &ref
+			w.queueAck(fe)
 		}
 		if rapid.Bool().Draw(t, "settle") {
 			pkt.htlc = &lnwire.UpdateFulfillHTLC{}
